@@ -2,6 +2,7 @@ package connectors
 
 import (
 	"context"
+	"github.com/mimecast/dtail/internal/vhook"
 	"io"
 
 	"github.com/mimecast/dtail/internal/clients/handlers"
@@ -112,6 +113,7 @@ func (s *Serverless) handle(ctx context.Context, cancel context.CancelFunc) erro
 		if err := s.handler.SendMessage(command); err != nil {
 			dlog.Client.Debug(err)
 		}
+		vhook.Point("cli.cmd.sent", s.Server(), command)
 	}
 
 	<-ctx.Done()
